@@ -131,7 +131,7 @@ func pickWeighted(t *rapid.T, w map[string]int, order []string) string {
 	return order[0]
 }
 
-var kindOrder = []string{"put", "del", "get", "batch", "sync", "merge", "reopen", "listkeys", "fold", "stat", "emptykey", "iter"}
+var kindOrder = []string{"put", "del", "get", "batch", "sync", "merge", "reopen", "listkeys", "fold", "stat", "emptykey", "iter", "backup", "bigput"}
 
 // GenOp draws the next concrete op of a history from the runner's state.
 func GenOp(t *rapid.T, r *Runner, pool *KeyPool, p *GenProfile) Op {
@@ -157,6 +157,12 @@ func GenOp(t *rapid.T, r *Runner, pool *KeyPool, p *GenProfile) Op {
 		return Op{K: "fold", N: U(t, 4, "stop")}
 	case "emptykey":
 		return Op{K: "emptykey", Which: Pick(t, []string{"put", "put0", "get", "del"}, "which")}
+	case "backup":
+		o := GenOpt(t, "backupreader", p.OptProfile)
+		return Op{K: "backup", Opt: &o}
+	case "bigput":
+		key := pool.Draw(t, "key")
+		return Op{K: "put", Key: key, VLen: BlockSize + U(t, 2*BlockSize, "biglen"), VSeed: r.NextSeed()}
 	case "iter":
 		n := p.IterCalls
 		if n == 0 {
